@@ -3,7 +3,8 @@ package main
 // corpus: recorded inputs that run first on every invocation: the witnesses of the repaired findings
 // KF-C04-1, -2, -4, -5 as SPEC-BACKED ops (a checkout without the repairs disagrees on them: that is the
 // regression the check must catch), the witness of the open finding KF-C04-3 as a model-vs-code op (the
-// model reproduces the defect, see C04_cex_scan_nil_on_tuple in lean/Proofs/C04.lean).
+// model reproduces the defect, see C04_cex_scan_nil_on_tuple in lean/Proofs/C04.lean), the witnesses of the open
+// findings KF-C04-6 / KF-C04-7 about destinations reused across rows as model-vs-code ops (reusex).
 const (
 	pageLogical = "4 1 N N N 0 RES ROWS N G 6b73 74 2 74 t 2 n 3 n 3 61 n 3 1 2 t 2 01 02 b 03"
 	pageWire    = "84000001080000003a00000002000000010000000200026b7300017400017400310002000300030001610003000000010000000a000000010100000001020000000103"
@@ -27,4 +28,10 @@ var corpus = []string{
 	"skip 4 4 1 N N N 0 RES PREP 01 0 N G 6b73 74 1 70 n 3 M N G 6b73 74 1 61 n 3 8400000108000000330000000400010100000001000000010000000000026b730001740001700003000000010000000100026b730001740001610003 ROWSRESP 4 1 N N N 0 RES ROWS Y 0708 O 1 0 1 1 b 78 84000001080000001b000000020000000600000001000000020708000000010000000178",
 	// KF-C04-5 (repaired): the page carries its own metadata (column b varchar) although the driver asked to skip it: it is used
 	"skip 4 4 1 N N N 0 RES PREP 01 0 N G 6b73 74 1 70 n 3 M N G 6b73 74 1 61 n 3 8400000108000000330000000400010100000001000000010000000000026b730001740001700003000000010000000100026b730001740001610003 ROWSRESP 4 1 N N N 0 RES ROWS N G 6b73 74 1 62 n 13 1 1 b 78 84000001080000002100000002000000010000000100026b73000174000162000d000000010000000178",
+	// KF-C04-6 (open): an empty blob cell into a reused []byte: empty non-nil after a value, nil after null
+	"reusex scan Z 4 D 1 bytes 4 1 N N N 0 RES ROWS N G 6b73 74 1 63 n 3 2 1 b 61 1 b - 84000001080000002500000002000000010000000100026b73000174000163000300000002000000016100000000",
+	"reusex scan Z 4 D 1 bytes 4 1 N N N 0 RES ROWS N G 6b73 74 1 63 n 3 2 1 null 1 b - 84000001080000002400000002000000010000000100026b73000174000163000300000002ffffffff00000000",
+	// KF-C04-7 (open): a UDT value with fewer fields than the type into a reused struct keeps the previous row's field
+	"reusex scan Z 4 D 1 ustruct 2 a k int b string 4 1 N N N 0 RES ROWS N G 6b73 74 1 63 u 6b73 75 2 61 n 9 62 n 13 2 1 b 00000004000000010000000178 1 b 0000000400000005 84000001080000004c00000002000000010000000100026b73000174000163003000026b7300017500020001610009000162000d000000020000000d00000004000000010000000178000000080000000400000005",
+	"reusex scanner Z 4 D 1 ustruct 2 a k int b string 4 1 N N N 0 RES ROWS N G 6b73 74 1 63 u 6b73 75 2 61 n 9 62 n 13 2 1 b 00000004000000010000000178 1 b 0000000400000005 84000001080000004c00000002000000010000000100026b73000174000163003000026b7300017500020001610009000162000d000000020000000d00000004000000010000000178000000080000000400000005",
 }
